@@ -98,7 +98,8 @@ def run_job(job):
     if job.get("mode") == "enumerate":
         from dverif import family
         st = family.enumerate_case(contract, case, lambda S: evaluate(contract, case, S),
-                                   maxlen=job.get("maxlen", 3), cap=job.get("cap", 2000), seed=job.get("seed", 0))
+                                   maxlen=job.get("maxlen", 3), cap=job.get("cap", 2000), seed=job.get("seed", 0),
+                                   time_limit=job.get("time_limit"))
         st.update(case=case.get("name"), contract=job["contract"], maxlen=job.get("maxlen", 3), cap=job.get("cap", 2000))
         return st
     return evaluate(contract, case, NatSpec(job["inputs"]))
